@@ -94,7 +94,7 @@ let str_post ((u, hs) : post) =
     (String.concat "&" (Stdlib.List.sort compare (Stdlib.List.map (fun (h, t) -> str_hname h ^ "=" ^ str_tokv t) hs)))
 let str_get = function None -> "404" | Some v -> str_view v
 let str_step (((r, ps), gs) : stepobs) =
-  str_resp r ^ "|" ^ String.concat "," (Stdlib.List.map str_post ps) ^ "|" ^ String.concat "," (Stdlib.List.map str_get gs)
+  str_resp r ^ "|" ^ String.concat "," (Stdlib.List.sort compare (Stdlib.List.map str_post ps)) ^ "|" ^ String.concat "," (Stdlib.List.map str_get gs)
 let str_dbrow (r : row) =
   Printf.sprintf "u%s/%s=%s/%s" (dec_of_z r.r_url) (str_hname r.r_hdr) (str_tokv r.r_tok)
     (str_view (((r.r_errors, r.r_active), r.r_lstatus), r.r_lts))
